@@ -53,6 +53,10 @@ def producers(env):
     P.append(dict(text='-"abc"', code=None, kind='operator-python'))
     P.append(dict(text='DATE(9999,12,31)*2', code=None, kind='operator-python'))
     P.append(dict(text='DATE(9999,12,31)+DATE(9999,12,31)*400', code=None, kind='operator-python'))
+    # ... the same for a comparison that cannot be made (an array or a complex number against a scalar)
+    P.append(dict(text='{1,2}<1', code=None, kind='operator-python'))
+    P.append(dict(text='{1,2}>=2', code=None, kind='operator-python'))
+    P.append(dict(text='COMPLEX(1,2)<1', code=None, kind='operator-python'))
     for i, c in enumerate(CODES8):
         P.append(dict(text='FRAISE(%d)' % i, code=c, kind='custom-raises'))
         P.append(dict(text='FRET(%d)' % i, code=c, kind='custom-returns'))
@@ -69,7 +73,7 @@ def producers(env):
     return P
 
 
-NPRODUCERS = 75
+NPRODUCERS = 78
 
 
 LITERALS = ['#NULL!', '#DIV/0!', '#VALUE!', '#REF!', '#NAME?', '#NUM!', '#N/A', '#ERROR!', '#GETTING_DATA']
